@@ -82,6 +82,9 @@ func (r *DirectReport) Fail(clause, format string, a ...any) {
 	}
 }
 
+// EngineRetries counts executions that were run again because an assertion of the run time failed.
+var EngineRetries int
+
 // PrefixEnt is one replayed choice with the arity it had when recorded.
 type PrefixEnt struct {
 	Pick int `json:"p"`
@@ -110,6 +113,18 @@ func RunOnce(sc *Scenario, prefix []PrefixEnt) *Exec {
 		return 0
 	}
 	x := Run(sc.Cfg, ch, sc.Body)
+	for attempt := 0; x.EnginePanic != "" && attempt < 3; attempt++ {
+		// an assertion of the run time failed: not a verdict; the same choices once more
+		EngineRetries++
+		if sc.Setup != nil {
+			sc.Setup()
+		}
+		pos, div = 0, ""
+		x = Run(sc.Cfg, ch, sc.Body)
+	}
+	if x.EnginePanic != "" && x.Diverged == "" {
+		x.Diverged = "engine assertion (not a verdict): " + x.EnginePanic
+	}
 	if div != "" && x.Diverged == "" {
 		x.Diverged = div
 	}
